@@ -645,9 +645,147 @@ func TestC13(t *testing.T) {
 			c13tcpStall(rep, seed, job, i%2 == 1)
 		}
 	}
+	for i := 0; i < vh.Pick(3, 40); i++ {
+		job++
+		if job%nsh == shard {
+			c13overflowFailDrain(rep, seed, job)
+			c13stalledReaderGoesOn(rep, seed, job)
+		}
+	}
 	gomavlib.VerifSetHook(nil)
 	rep.Sample(map[string]interface{}{"stall": "channel 1 of 3 blocks from its 2nd Write; 187 items to all + To(stalled) every 7th", "fault": "unencodable:raw-id at position 5, then 40 valid writes"})
 	rep.Floor("stall_runs", 1)
+}
+
+// c13overflowFailDrain: a link stalls until its queue has overflowed; when it moves again the writes of the whole backlog
+// fail (the kind of error a link reports after a long stall: timeouts), then it works. The channel is open and its queue
+// empty: what is written from then on comes out, or the channel is reported closed.
+func c13overflowFailDrain(rep *vh.Report, seed uint64, idx int) {
+	if aborted() {
+		return
+	}
+	r := vh.Sub(seed, fmt.Sprintf("c13-ofd-%d", idx))
+	hookReset(r.U64(), false, false)
+	k := 1 + r.Intn(3)
+	n := c13start(rep, k, false, false)
+	if n == nil {
+		return
+	}
+	const fam = 0xD3
+	v := r.Intn(k)
+	tr := n.trs[v]
+	tr.BlockWrites()
+	nOver := 70 + r.Intn(40)
+	for i := 0; i < nOver; i++ {
+		_ = n.node.WriteMessageTo(n.chans[v], &MessageVfUid{Uid: uint64(fam)<<56 | uint64(i+1)})
+	}
+	waitFor(func() bool { return n.chans[v].VerifBacklog() >= 64 && tr.Blocked() > 0 }, func() int64 { return int64(n.chans[v].VerifBacklog()) }, 300*time.Millisecond)
+	if n.chans[v].VerifBacklog() < 64 || tr.Blocked() == 0 {
+		rep.Inconclusive("C13 overflow/fail-drain: the queue did not fill")
+		safeClose(rep, n.node)
+		return
+	}
+	// every write of the backlog fails
+	werr := []error{errWrite, os.ErrDeadlineExceeded, &net.OpError{Op: "write", Net: "tcp", Err: os.ErrDeadlineExceeded}}[idx%3]
+	tr.FailWriteAt(tr.WriteCalls()+1, werr, true)
+	tr.UnblockWrites()
+	waitFor(func() bool { return n.chans[v].VerifBacklog() == 0 }, func() int64 { return int64(tr.WriteCalls()) }, 500*time.Millisecond)
+	time.Sleep(2 * time.Millisecond)
+	tr.StopFailing()
+	closed := func() bool {
+		for _, ci := range n.cons.allChannels() {
+			if sn := n.cons.snapshot(ci); sn.Tr == tr && sn.State == 2 {
+				return true
+			}
+		}
+		return false
+	}
+	var want []uint64
+	for i := 0; i < 12; i++ {
+		uid := uint64(fam+1)<<56 | uint64(i+1)
+		want = append(want, uid)
+		if i%2 == 0 {
+			_ = n.node.WriteMessageTo(n.chans[v], &MessageVfUid{Uid: uid})
+		} else {
+			_ = n.node.WriteMessageAll(&MessageVfUid{Uid: uid})
+		}
+		time.Sleep(500 * time.Microsecond)
+	}
+	waitFor(func() bool { acc, _ := wireUIDs(tr, fam+1); return len(acc) >= len(want) || closed() }, func() int64 { return int64(tr.WriteCalls()) + n.cons.nEvents() }, 800*time.Millisecond)
+	got, _ := wireUIDs(tr, fam+1)
+	rep.Eval(1)
+	rep.Count("overflow_then_failing_drain_runs", 1)
+	rep.Distinct("ofd", idx, k, v, nOver)
+	if closed() {
+		rep.Count("overflow_then_failing_drain_closed", 1)
+	} else if !eqU64(got, want) {
+		rep.Violation("what=silent-dead:overflow-fail-drain ep=custom", fmt.Sprintf("after an overflow whose backlog was drained by failing writes (%v) the channel is open with an empty queue, yet %d of %d later items came out", werr, len(got), len(want)),
+			map[string]interface{}{"channels": k, "victim": v, "written_while_stalled": nOver, "backlog_now": n.chans[v].VerifBacklog(), "got": got, "want": want})
+	}
+	if !safeClose(rep, n.node) {
+		return
+	}
+	<-n.cons.done
+}
+
+// c13stalledReaderGoesOn: a channel whose transport takes no output and whose queue is full goes on RECEIVING: the frames
+// arriving on it - the first heartbeat of a new ArduPilot sender (which makes the node want to write 7 stream requests on
+// that very channel) and everything behind it - still surface as events.
+func c13stalledReaderGoesOn(rep *vh.Report, seed uint64, idx int) {
+	if aborted() {
+		return
+	}
+	r := vh.Sub(seed, fmt.Sprintf("c13-srg-%d", idx))
+	hookReset(r.U64(), false, false)
+	tr := fake.NewTransport("srg")
+	node := &gomavlib.Node{Endpoints: []gomavlib.EndpointConf{gomavlib.EndpointCustom{ReadWriteCloser: tr}}, Dialect: testDialect, OutVersion: gomavlib.V2, OutSystemID: 21,
+		HeartbeatDisable: true, StreamRequestEnable: true, StreamRequestFrequency: 4}
+	if err := node.Initialize(); err != nil {
+		rep.HarnessError(err.Error())
+		return
+	}
+	cons := newConsumer(rep, "C13", "custom", node)
+	cons.start()
+	if !cons.waitOpen(1, 2*time.Second) {
+		rep.HarnessError("channel did not open")
+		safeClose(rep, node)
+		return
+	}
+	ch := cons.openChannels()[0].Ch
+	const fam = 0xD5
+	tr.BlockWrites()
+	for i := 0; i < 80; i++ {
+		_ = node.WriteMessageTo(ch, &MessageVfUid{Uid: uint64(fam)<<56 | uint64(i+1)})
+	}
+	waitFor(func() bool { return ch.VerifBacklog() >= 64 }, func() int64 { return int64(ch.VerifBacklog()) }, 300*time.Millisecond)
+	full := ch.VerifBacklog() >= 64
+	// the first heartbeats of new ArduPilot senders, and ordinary frames behind each of them
+	var want []uint64
+	for i := 0; i < 5; i++ {
+		tr.Feed(hbFrame(byte(10+i), 1, 3, 0))
+		for j := 0; j < 4; j++ {
+			uid := uint64(fam+1)<<56 | uint64(i*4+j+1)
+			want = append(want, uid)
+			tr.Feed(uidFrame(uid, byte(j), 7, false, nil, 0))
+		}
+	}
+	ci := cons.openChannels()[0]
+	waitFor(func() bool { return len(cons.snapshot(ci).UIDs) >= len(want) }, cons.nEvents, 700*time.Millisecond)
+	got := cons.snapshot(ci).UIDs
+	rep.Eval(1)
+	rep.Count("stalled_full_channels_still_receiving_runs", 1)
+	rep.Distinct("srg", idx)
+	if !full {
+		rep.Inconclusive("C13 stalled reader: the queue did not fill")
+	} else if !eqU64(got, want) {
+		rep.Violation("what=events-stop:stream-request ep=custom", fmt.Sprintf("a channel whose transport takes no output (queue full) stopped delivering what it receives after the first heartbeat of a new ArduPilot sender: %d frame events for %d frames", len(got), len(want)),
+			map[string]interface{}{"backlog": ch.VerifBacklog(), "got": len(got), "want": len(want)})
+	}
+	tr.UnblockWrites()
+	if !safeClose(rep, node) {
+		return
+	}
+	<-cons.done
 }
 
 // c13tcpStall: the peer of a TCP channel keeps the connection up but stops reading until the node's
